@@ -334,7 +334,17 @@ def r7_check_region(ctx):
 
     def raising(pred):
         return any(p.exit == "raise" and p.conds and p.conds[-1][1] and pred(p.conds[-1][0]) for p in paths)
-    ok_len = raising(lambda c: c[0] == "cmp" and c[1] == "!=" and c[3] == const(4) and c[2][0] == "call" and callee(c[2]) == "builtins.len")
+    def is_len(t):
+        return t[0] == "call" and callee(t) == "builtins.len"
+
+    def not_four(c):
+        if c[0] == "cmp" and c[1] == "!=" and c[3] == const(4) and is_len(c[2]):
+            return True
+        if c[0] == "boolop" and c[1] == "Or":           # len(region) < 4 or len(region) > 4
+            ops = {x[1] for x in c[2] if x[0] == "cmp" and x[3] == const(4) and is_len(x[2])}
+            return {"<", ">"} <= ops
+        return False
+    ok_len = raising(not_four)
     ctx.check("R7", qn + "|raises|length", True if ok_len else False, "a region without exactly 4 values raises", bad="regions of the wrong length are accepted", fn=qn)
     for nm, i, j in (("west>east", 0, 1), ("south>north", 2, 3)):
         strict = raising(lambda c: c == ("cmp", ">", Q.sub(reg, i), Q.sub(reg, j)) or c == ("cmp", "<", Q.sub(reg, j), Q.sub(reg, i)))
